@@ -195,6 +195,10 @@ class SymEnv(Env):
         self.holds(name, cond, key=key)
         self.claims[-1].lemma = True
 
+    def lemma_le(self, name, a, b, key=None):
+        """lemma a <= b (in replay mode evaluated with the relative tolerance of `le`)."""
+        self.lemma(name, SymBool(toz(a) <= toz(b)), key=key)
+
     def derive(self, name, cond, hyps, atoms, key=None, lemma=False):
         """Final step of a proof script: `cond` is proved from the listed hypotheses only (each
         must be an assumption of the harness or a claim/lemma made earlier on this path -- the
@@ -278,6 +282,9 @@ class ReplayEnv(Env):
 
     def lemma(self, name, cond, key=None):
         self.holds(name, cond)
+
+    def lemma_le(self, name, a, b, key=None):
+        self.le(name, a, b)
 
     def derive(self, name, cond, hyps, atoms, key=None, lemma=False):
         self.holds(name, cond, key=key)
@@ -477,6 +484,28 @@ def run_instance(body, params=None, label='', max_paths=256, max_depth=64,
                 rec['samples'].append({'instance': label, 'claim': cl.name, 'verdict': res,
                                        'path_forks': len(p.decisions),
                                        'assertion': s if len(s) < 600 else s[:600] + ' ...'})
+            if res == 'unknown' and (env.actuals or env.nominals) and all(
+                    k in env.actuals or k in env.nominals for k in env.inputs):
+                # the solver could not decide; evaluate the claim at the constructed state with nominal values
+                # (a concrete point of the input space): a failure there is a real counterexample
+                pt = {k: fractions.Fraction(repr(float(env.nominals.get(k, env.actuals.get(k))))) for k in env.inputs}
+                st, detail = replay_once(body, pt, params, cl.name, rel_tol)
+                if st == 'violated':
+                    res = 'sat'
+                    rec['unknown'] -= 1
+                    rec['sat'] += 1
+                    v = {'claim': cl.name, 'key': cl.key, 'kind': cl.kind, 'status': 'reproduced', 'label': label,
+                         'how': 'solver unknown; violated at the constructed state with nominal values', 'detail': detail,
+                         'inputs': {k: float(x) for k, x in list(pt.items())[:40]}}
+                    if replay_dir:
+                        os.makedirs(replay_dir, exist_ok=True)
+                        fnm = os.path.join(replay_dir, _safe('%s__%s' % (label, cl.name)) + '.json')
+                        with open(fnm, 'w') as f:
+                            json.dump({'property': prop, 'instance': label, 'params': _jsonable(params), 'claim': cl.name,
+                                       'key': cl.key, 'inputs': {k: _frac_to_json(x) for k, x in pt.items()},
+                                       'observed': detail}, f, indent=1)
+                        v['replay'] = fnm
+                    (rec['violations'] if cl.core else rec['best_effort_open']).append(v)
             if res == 'unknown':
                 (rec['inconclusive'] if cl.core else rec['best_effort_open']).append(
                     {'claim': cl.name, 'why': 'solver unknown/timeout'})
